@@ -183,6 +183,12 @@ def triage(vc, mod, report, args):
         if not applicable:
             new.append(ob)
             continue
+        whole = [fid for fid, ex in applicable if ex is True]
+        if whole:
+            # the obligation is identified as a whole (call site / path) by a listed finding
+            ob.known_whole = whole[0]
+            only_known.setdefault(whole[0], []).append(ob)
+            continue
         hyps2 = list(ob.hyps) + [z3.Not(ex) for _, ex in applicable]
         r = solve.z3_check(hyps2, ob.goal, vc.z3_timeout_ms, ob.watch)
         if r.status == solve.PROVED:
@@ -264,7 +270,9 @@ def triage(vc, mod, report, args):
 
 def write_evidence(vc, mod, report, args, seed, wall, code):
     st = vc.by_status() if all(o.result for o in vc.obligations) else None
-    obl = [o for o in vc.obligations if o.kind not in ("cover", "bounded")]
+    known_whole = [o for o in vc.obligations if getattr(o, "known_whole", None) and any(
+        line.startswith("KNOWN-FINDING") and o.known_whole in line for line in report["known"])]
+    obl = [o for o in vc.obligations if o.kind not in ("cover", "bounded") and o not in known_whole]
     bounded = [o for o in vc.obligations if o.kind == "bounded"]
     proved = [o for o in obl if o.result and o.result.status == solve.PROVED]
     # obligations that fail only on the inputs of a listed known finding are discharged under the recorded exclusion
@@ -297,6 +305,8 @@ def write_evidence(vc, mod, report, args, seed, wall, code):
         "discharged": len(proved) + len(excl),
         "discharged_unconditionally": len(proved),
         "discharged_under_known_finding_exclusion": len(excl),
+        "obligations_failing_as_listed_known_findings": {"count": len(known_whole), "ids": sorted({o.known_whole for o in known_whole}),
+                                                         "note": "identified call sites / paths of recorded known findings; not part of obligations/discharged"},
         "refuted": len([o for o in obl if o.result and o.result.status == solve.REFUTED]) - len(excl),
         "unknown": len([o for o in obl if o.result and o.result.status == solve.UNKNOWN]),
         "cover_queries": len([o for o in vc.obligations if o.kind == "cover"]),
